@@ -100,7 +100,8 @@ Fixpoint val_eqb (a b : val) {struct a} : bool :=
 
 (* ------------------------------------------------------------------ datatypes *)
 Inductive dtype :=
-| DInt | DBool
+| DInt (lo hi : Z)                        (* the limits are not looked at by import/export *)
+| DBool
 | DEnum (ms : list (str * Z))
 | DStr (minc maxc : nat) (utf8 : bool)
 | DFloat
@@ -133,7 +134,7 @@ Definition str_ok (minc maxc : nat) (utf8 : bool) (s : str) : bool :=
 (* datatype.import_value(j): None = raises *)
 Fixpoint import (d : dtype) (j : val) {struct d} : option val :=
   match d with
-  | DInt => match num_of j with Some (FInt z) => Some (VInt z) | _ => None end
+  | DInt _ _ => match num_of j with Some (FInt z) => Some (VInt z) | _ => None end
   | DBool => match num_of j with
              | Some (FInt z) => if Z.eqb z 0 then Some (VBool false) else if Z.eqb z 1 then Some (VBool true) else None
              | _ => None end
@@ -191,7 +192,7 @@ Fixpoint import (d : dtype) (j : val) {struct d} : option val :=
 (* datatype.export_value(v) on an internal value: None = raises (check_type of array/tuple/struct) *)
 Fixpoint export (d : dtype) (v : val) {struct d} : option val :=
   match d with
-  | DInt => match v with VInt z => Some (VInt z) | _ => None end
+  | DInt _ _ => match v with VInt z => Some (VInt z) | _ => None end
   | DBool => match v with VBool b => Some (VBool b) | _ => None end
   | DEnum ms => match v with VInt z => if existsb (Z.eqb z) (map snd ms) then Some (VInt z) else None | _ => None end
   | DStr _ _ _ => match v with VStr s => Some (VStr s) | _ => None end
